@@ -80,6 +80,52 @@ Proof.
     repeat split; reflexivity.
 Qed.
 
+(* Beyond the guard of C07_empty_matrix (review round 3, C07 finding 2), AS CODED: "on an empty matrix
+   maximum and arg-maximum are None" holds without any hypothesis for every entry point EXCEPT the
+   arg-maximum of the SSE2 / AVX2 arms, whose explicit `max_index > u32::MAX` guard (avx2.rs argmax,
+   sse2.rs argmax_sse2: tested BEFORE the emptiness test) panics on an empty matrix too.  Such a value is
+   a StripedScores without rows but with max_index >= 2^32 -- `StripedScores::resize(0, 2^32)` through the
+   public API; scoring never builds it (score_rows_into gives resize(0, 0) for an empty result).  The
+   corpus line `k=f32 R=0 mi=4294967296 m=-` observes exactly this: g / dG None, s / a / dS / dA panic. *)
+Theorem C07_empty_matrix_any_index :
+  forall (T : Type) (le lt : T -> T -> bool) (vmax smax : T -> T -> T) (ninf : T) (a : arm) (t : T)
+         (max_index : N),
+  dispatch_argmax_f32 le lt ninf AGeneric max_index [] = Ok None /\
+  dispatch_max_f32 le vmax smax a [] = Ok None /\
+  dispatch_threshold le a [] t = [] /\
+  dispatch_argmax_u8 a [] = Ok None /\ dispatch_max_u8 a [] = Ok None /\
+  lin_max le [] = Ok None /\ lin_argmax le [] = Ok None /\
+  (a <> AGeneric ->
+   (index_fits32 max_index -> dispatch_argmax_f32 le lt ninf a max_index [] = Ok None) /\
+   (~ index_fits32 max_index -> dispatch_argmax_f32 le lt ninf a max_index [] = Panic 20)).
+Proof.
+  intros T le lt vmax smax ninf a t mi.
+  split; [reflexivity|]. split; [destruct a; reflexivity|]. split; [reflexivity|].
+  split; [destruct a; reflexivity|]. split; [destruct a; reflexivity|].
+  split; [reflexivity|]. split; [reflexivity|].
+  intros Ha. split.
+  - intros Hi. exact (proj1 (C07_empty_matrix T le lt vmax smax ninf a t mi Hi)).
+  - intros Hn. apply (dispatch_argmax_f32_guard le lt ninf a mi [] Ha).
+    unfold index_fits32 in Hn. lia.
+Qed.
+
+(* the row-count / max_index hypotheses of C07_dispatch_f32 / C07_dispatch_u8 are needed by the vector
+   arms only (review round 3, C07 finding 3): the Generic arm of both dispatchers, and the SSE2 arm of the
+   8-bit one (no 8-bit SSE2 kernel: default scans), meet the arg-maximum specification on EVERY matrix *)
+Theorem C07_dispatch_unguarded_arms :
+  (forall (T : Type) (le lt : T -> T -> bool) (good : T -> Prop) (ninf : T), preorder_on good le ->
+   forall (max_index : N) (m : list (list T)), wf 32 m -> all_good good m ->
+   exists o, dispatch_argmax_f32 le lt ninf AGeneric max_index m = Ok o /\ argmax_spec le 32 m o) /\
+  (forall (a : arm) (m : list (list Z)), a <> AAvx2 -> wf 32 m ->
+   exists o, dispatch_argmax_u8 a m = Ok o /\ argmax_spec Z.leb 32 m o).
+Proof.
+  split.
+  - intros T le lt good ninf PO mi m Hwf Hg. exact (dispatch_argmax_f32_generic_ok le lt good PO ninf mi m Hwf Hg).
+  - intros a m Ha Hwf.
+    assert (E : dispatch_argmax_u8 a m = argmax_generic Z.leb m) by (destruct a; try reflexivity; congruence).
+    rewrite E. apply (argmax_generic_ok Z.leb zgood zle_preorder 32 m); [lia|exact Hwf|exact (zall_good m)].
+Qed.
+
 (* ================= the vector kernels equal their specifications ================= *)
 
 Theorem C07_argmax_f32_avx2_eq_spec :
